@@ -5,7 +5,8 @@ SPEC = {
   "props/C03.vo"
  ],
  "case_libs": [
-  "theories/CasesBytes.vo"
+  "theories/CasesBytes.vo",
+  "theories/CasesConcat.vo"
  ],
  "drivers": [
   {
@@ -18,9 +19,16 @@ SPEC = {
     "all",
     "focus=heap"
    ]
+  },
+  {
+   "driver": "concat",
+   "profiles": [
+    "debug",
+    "release"
+   ]
   }
  ],
- "rule": "histories of the Bytes machine on the real implementation (corpus + seeded structured-random, HipByt and HipStr, Arc/Rc/Unique, debug+release); after EVERY op every live handle is re-read and its hook-level representation (tag, owner identity, offset, stored count, Vec len/cap, normalised flag) and the allocator counters are compared with the model by coqc. Oracle for this property: the tracking allocator (every block remembered with its layout; double free / wrong layout / red-zone damage / write-after-free recorded, not forwarded), view inside the owner's initialised buffer, owner buffer = live allocator block of exactly the Vec's capacity, per-op alloc/free/realloc counts and the number of live blocks obtained by the library equal the model's after every op; each history ends by dropping everything.",
+ "rule": "histories of the Bytes machine on the real implementation (corpus + seeded structured-random, HipByt and HipStr, Arc/Rc/Unique, debug+release); after EVERY op every live handle is re-read and its hook-level representation (tag, owner identity, offset, stored count, Vec len/cap, normalised flag) and the allocator counters are compared with the model by coqc. Oracle for this property: the tracking allocator (every block remembered with its layout; double free / wrong layout / red-zone damage / write-after-free recorded, not forwarded), view inside the owner's initialised buffer, owner buffer = live allocator block of exactly the Vec's capacity, per-op alloc/free/realloc counts and the number of live blocks obtained by the library equal the model's after every op; each history ends by dropping everything; a history whose values are all gone must have released every block (leak oracle; histories with a forgotten mutate guard or a forced count excepted). Multi-piece construction (concat / join with adversarial iterators and AsRef, `concat` driver, debug+release) runs under the same allocator monitor: no write outside the destination block whatever the second traversal yields.",
  "assumptions": [
   "the Inner box and the Vec buffer are two allocations in Rust; the model counts one box per block and one buffer per block of non-zero capacity",
   "Layout alignment of Vec<u8>/Box<Inner> is std's"
